@@ -215,3 +215,4 @@ CFG = dict(
     timeout=600,
 )
 CFG["rule"] += ' The quick race stage includes a gRPC bidi call whose handler returns while a goroutine it started keeps receiving (grpc-leftover) and proxied bidi calls whose backend fails while the client is sending.'
+CFG["rule"] += ' Kind proxy-http-gzip-fail (echo and race stages): a proxied bidi method over plain HTTP with a streamed gzip body; the backend fails while the client is connected and silent; three gzip requests follow on the same mux while the first body goes on and ends.'
